@@ -445,7 +445,10 @@ def f6_python_guards(ctx, L):
             L.check('self._SIZE' in g, 'F6.remaining-guard', f.fq + '|static-slot', f.site(r),
                     'the static slot size self._SIZE is reported as consumed without a dominating '
                     '`self._SIZE > (len(data) - pos) -> raise ProphyError`', str(g))
-            L.check(re.sub(r'\s', '', unparse(r.value)) in ('max(size,self._SIZE)', 'max(cursor,self._SIZE)'),
+            mx = r.value
+            is_max = isinstance(mx, ast.Call) and unparse(mx.func) == 'max' and len(mx.args) == 2 and \
+                sorted((isinstance(a, ast.Name) or str(unparse(a)) for a in mx.args), key=str) == [True, 'self._SIZE']
+            L.check(is_max,
                     'F6.consumed-size', f.fq, f.site(r),
                     'a bound array consumes max(bytes decoded, static slot size)', unparse(r.value))
     # union
@@ -738,7 +741,8 @@ def f16_runtime_layout(ctx, L):
     body = [ws(unparse(s)) for s in lp.body]
     want_tail = ['%s = max(wire_alignment(%s), %s)' % (av, tv, av),
                  '%s = max(%s._OPTIONAL_ALIGNMENT if %s._OPTIONAL else %s._ALIGNMENT, %s)' % (av, tv, tv, tv, av)]
-    L.check(len(lp.body) == 2 and isinstance(lp.body[0], ast.If) and body[1] in want_tail, 'F16.block-alignment-fold',
+    want_tail = [_canon(w, set()) for w in want_tail]
+    L.check(len(lp.body) == 2 and isinstance(lp.body[0], ast.If) and _canon(lp.body[1], set()) in want_tail, 'F16.block-alignment-fold',
             'add_attributes|aggregate', f.site(lp), 'each member must contribute max(slot alignment, running alignment) after the '
             'dynamic-field test', ' ; '.join(body))
     if isinstance(lp.body[0], ast.If):
@@ -995,19 +999,36 @@ def local_defs(f):
         if isinstance(n, ast.Assign) and len(n.targets) == 1 and isinstance(n.targets[0], ast.Name) and cnt.get(n.targets[0].id) == 1 \
                 and n.targets[0].id not in f.params and _pure(n.value):
             defs[n.targets[0].id] = n.value
+    # a loop variable is bound once per iteration: a local defined from it *inside that loop body* means the same for the rest of
+    # the iteration
+    loop_of = {}
+    where = {}
+    for n in [f.node] + list(f.walk()):
+        if isinstance(n, ast.For):
+            inside = set(id(x) for st in n.body for x in ast.walk(st))
+            for t in ast.walk(n.target):
+                if isinstance(t, ast.Name):
+                    loop_of.setdefault(t.id, []).append(inside)
+        if isinstance(n, ast.Assign) and len(n.targets) == 1 and isinstance(n.targets[0], ast.Name):
+            where[n.targets[0].id] = id(n)
     changed = True
     while changed:
         changed = False
         for k, v in list(defs.items()):
             for x in ast.walk(v):
-                if isinstance(x, ast.Name) and x.id != k and (cnt.get(x.id, 0) > (1 if x.id in defs else 0)):
+                if not (isinstance(x, ast.Name) and x.id != k):
+                    continue
+                budget = 1 if x.id in defs else 0
+                if x.id in loop_of and len(loop_of[x.id]) == 1 and where.get(k) in loop_of[x.id][0]:
+                    budget = 1
+                if cnt.get(x.id, 0) > budget:
                     defs.pop(k)
                     changed = True
                     break
     return defs
 
 
-def _sem(node, params, defs, globals_):
+def _sem(node, params, defs, globals_, order=None):
     import copy
     from .. import canon as _cn
     node = copy.deepcopy(node)
@@ -1028,7 +1049,8 @@ def _sem(node, params, defs, globals_):
     wrap = T().visit(wrap)
     ast.fix_missing_locations(wrap)
     wrap = _cn.normalise(wrap)
-    order = {}
+    if order is None:
+        order = {}
     for n in sorted((n for n in ast.walk(wrap) if isinstance(n, ast.Name)), key=lambda n: (getattr(n, 'lineno', 0), getattr(n, 'col_offset', 0))):
         if n.id in globals_ or hasattr(_builtins, n.id) or n.id in ('self', 'cls') or n.id.startswith('_P'):
             continue
@@ -1112,10 +1134,11 @@ def sem_body(f):
     g = (module_globals(f.module) if f.module is not None else set()) | ALL_GLOBALS
     defs = local_defs(f)
     out = []
+    order = {}              # locals are numbered once per function: `a += [b]` and `b += [a]` stay different
     for st in _body(f.node):
         if isinstance(st, ast.Assign) and len(st.targets) == 1 and isinstance(st.targets[0], ast.Name) and st.targets[0].id in defs:
             continue        # the definition of an inlined local
-        out.append(_sem(st, list(f.params), defs, g))
+        out.append(_sem(st, list(f.params), defs, g, order))
     return ' ; '.join(out)
 
 
@@ -1127,7 +1150,7 @@ def body_is(f, *alternatives, **kw):
     return any(got == sem_body(_FakeFunc(a, params, f.module)) for a in alternatives)
 
 
-def trace(f, am, member_var, props, env=None, body=None):
+def trace(f, am, member_var, props, env=None, body=None, pre_order=None):
     """What `f` does for one abstract member, at meaning level: the statements executed on the member's path (single-definition
     locals replaced by their definitions, parameters by position, state guards kept as conditions) and how the path ends."""
     from .. import predabs
@@ -1136,11 +1159,12 @@ def trace(f, am, member_var, props, env=None, body=None):
     g = (module_globals(f.module) if f.module is not None else set()) | ALL_GLOBALS
     defs = local_defs(f)
     out = []
+    order = dict(pre_order or {})
     for text, maybe, node in effects:
         if isinstance(node, ast.Assign) and len(node.targets) == 1 and isinstance(node.targets[0], ast.Name) and node.targets[0].id in defs:
             continue
-        conds = tuple(('' if pol else 'not ') + _sem(t, list(f.params), defs, g) for pol, t in maybe)
-        out.append((conds, _sem(node, list(f.params), defs, g)))
+        conds = tuple(('' if pol else 'not ') + _sem(t, list(f.params), defs, g, order) for pol, t in maybe)
+        out.append((conds, _sem(node, list(f.params), defs, g, order)))
     return out, outcome if isinstance(outcome, str) else outcome[0]
 
 
@@ -1173,3 +1197,68 @@ def _src_hook(piece, src):
 
 from ..pyfront import Src as _Src  # noqa: E402
 _Src.hook = staticmethod(_src_hook)
+
+
+# ------------------------------------------------------------------------------------------------ authored names (E1d)
+class _ModuleShim(object):
+    """The module of a renamed clone: parent links of the cloned tree, everything else from the real module."""
+
+    def __init__(self, real, root):
+        self._real = real
+        self._parents = {}
+        for p in ast.walk(root):
+            for c in ast.iter_child_nodes(p):
+                self._parents[id(c)] = p
+
+    def parent(self, node):
+        return self._parents.get(id(node))
+
+    def __getattr__(self, name):
+        return getattr(self._real, name)
+
+
+def authored(f, params, locals_by_value=(), loop_targets=()):
+    """A clone of `f` in which the parameters carry the names the rule was written with (by position) and locals are named by
+    what they are bound to: `locals_by_value` = [(text of the defining expression in authored names, name)], `loop_targets` =
+    [(text of the iterated expression, [names])]. Rules written against the authored names then hold for any spelling."""
+    import copy
+    from ..pyfront import Func
+    if len(params) != len(f.params):
+        raise AnalysisError('%s: signature changed (%s), the rule was written for (%s)' % (f.fq, ', '.join(f.params), ', '.join(params)))
+    node = copy.deepcopy(f.node)
+    ren = dict((old, new) for old, new in zip(f.params, params) if old != new)
+
+    def apply(mapping):
+        if not mapping:
+            return
+        # two-phase to allow swaps
+        tmp = dict((k, '__ren_%d' % i) for i, k in enumerate(mapping))
+        for phase in (tmp, dict((tmp[k], v) for k, v in mapping.items())):
+            for n in ast.walk(node):
+                if isinstance(n, ast.Name) and n.id in phase:
+                    n.id = phase[n.id]
+                elif isinstance(n, ast.arg) and n.arg in phase:
+                    n.arg = phase[n.arg]
+    apply(ren)
+    for _ in range(3):
+        more = {}
+        for n in ast.walk(node):
+            if isinstance(n, ast.Assign) and len(n.targets) == 1 and isinstance(n.targets[0], ast.Name):
+                vt = re.sub(r'\s+', ' ', ast.unparse(n.value))
+                for text, name in locals_by_value:
+                    if vt == text and n.targets[0].id != name:
+                        more[n.targets[0].id] = name
+            elif isinstance(n, (ast.For, ast.comprehension)):
+                it = re.sub(r'\s+', ' ', ast.unparse(n.iter))
+                for text, names in loop_targets:
+                    tg = n.target.elts if isinstance(n.target, ast.Tuple) else [n.target]
+                    if it == text and len(tg) == len(names) and all(isinstance(t, ast.Name) for t in tg):
+                        for t, nm in zip(tg, names):
+                            if t.id != nm:
+                                more[t.id] = nm
+        if not more:
+            break
+        apply(more)
+    shim = _ModuleShim(f.module, node)
+    g = Func(shim, f.qualname, node, f.parent, f.cls)
+    return g
